@@ -1647,8 +1647,8 @@ Qed.
 Definition is_nil {A} (l: list A) : bool := match l with [] => true | _ => false end.
 (* marked (class, number) pairs: KR = a REAL may be carried under it, KA = a character
    string whose repertoire the library checks (ASCII) *)
-Inductive kind := KR | KA.
-Definition kind_eqb (a b: kind) : bool := match a, b with KR, KR | KA, KA => true | _, _ => false end.
+Inductive kind := KR | KA | KN.
+Definition kind_eqb (a b: kind) : bool := match a, b with KR, KR | KA, KA | KN, KN => true | _, _ => false end.
 Definition mkey : Type := (kind * (tclass * N))%type.
 Definition mkey_eqb (a b: mkey) : bool := kind_eqb (fst a) (fst b) && tag_pair_eqb (snd a) (snd b).
 Definition memk (k: mkey) (L: list mkey) : bool := existsb (mkey_eqb k) L.
@@ -1658,14 +1658,21 @@ Fixpoint leaves_ascii (n: node) : bool :=
   | Prim _ _ contents _ => ascii contents
   | Cons _ _ _ kids _ => forallb leaves_ascii kids
   end.
+(* KN marks that an ANY occurs: then no node may carry the reserved tag UNIVERSAL 0 *)
+Definition u0_ok (L: list mkey) (c: tclass) (num: N) : bool :=
+  negb (memk (KN, (Univ, 0)) L && tag_pair_eqb (c, num) (Univ, 0)).
 Fixpoint safe (L: list mkey) (n: node) : bool :=
   match n with
   | Prim c num contents _ =>
       (negb (memk (KR, (c, num)) L) || real_mant_ok contents) && (negb (memk (KA, (c, num)) L) || ascii contents)
+      && u0_ok L c num
   | Cons c num indef kids _ =>
-      (negb (memk (KA, (c, num)) L) || forallb leaves_ascii kids)
+      (negb (memk (KA, (c, num)) L) || forallb leaves_ascii kids) && u0_ok L c num
       && forallb (safe L) kids
   end.
+
+Lemma andb3 a b c : a && b && c = true -> a = true /\ b = true /\ c = true.
+Proof. destruct a, b, c; intros H; try discriminate H; repeat split. Qed.
 
 Lemma bit_segments_inv fuel n l : bit_segments fuel n = Some l ->
   (exists u c raw, n = Prim Univ 3 (u :: c) raw /\ N.ltb 7 u = false /\ l = [(bits_of_octets_spec c, u)])
@@ -1863,6 +1870,7 @@ Fixpoint frag (T: ty) : bool :=
 Fixpoint side_keys (T: ty) (e: option (tclass * N)) : list mkey :=
   match T with
   | TReal => [(KR, orkey e (Univ, 9))]
+  | TAny => [(KN, (Univ, 0))]
   | TStr n => if ascii_str n then [(KA, orkey e (Univ, n))] else []
   | TImp t x => side_keys x (Some (orkey e (key t)))
   | TExp t x => side_keys x None
@@ -2743,8 +2751,8 @@ Lemma safe_ascii L n : safe L n = true -> memk (KA, key (node_wire n)) L = true 
 Proof.
   intros Hs Hm. destruct n as [c num contents raw|c num indef kids raw]; unfold key in Hm; cbn [node_wire tcls tnum] in Hm;
     cbn [safe leaves_ascii] in *; rewrite Hm in Hs; cbn [negb orb] in Hs.
-  - apply andb_true_iff in Hs. tauto.
-  - apply andb_true_iff in Hs. tauto.
+  - apply andb3 in Hs. tauto.
+  - apply andb3 in Hs. tauto.
 Qed.
 
 Lemma item_str u : (latin1 u || ascii_str u)%bool = true -> item_ok0 (TStr u).
@@ -3759,7 +3767,7 @@ Proof.
   assert (Hm: real_mant_ok cs = true).
   { cbn [safe] in Hsafe. pose proof (same_tag_key _ _ Hsame) as Hk. unfold key in Hk. cbn [node_wire tcls tnum] in Hk.
     rewrite Hk in Hsafe. rewrite (HL (KR, orkey e (Univ, 9)) (or_introl eq_refl)) in Hsafe. cbn [negb orb] in Hsafe.
-    apply andb_true_iff in Hsafe. tauto. }
+    apply andb3 in Hsafe. tauto. }
   destruct (real_leaf cs ra (octs_body _ Hsh Ho) Hreal Hm) as (r & Hdec & Habs).
   exists (VReal r). split; [|cbn [abs]; rewrite Habs; reflexivity].
   apply (base_item sp T0 W d acc e (Univ, 9) _ f allow DcReal (mkDecFlags true (Some KReal)) _ Hsp); try assumption.
@@ -3889,6 +3897,187 @@ Proof.
       exists (adv s1 2). split; [reflexivity|]. rewrite app_length. cbn [length].
       rewrite pos_adv. split; [lia|]. split; [rewrite arrived_adv; exact Ha1|rewrite closed_adv; exact Hc1].
     + rewrite ?app_nil_r. apply (consumes_bind_pure _ _ _ (DV alt v)); [exact Hc|exact Hplace].
+Qed.
+
+(* ====================================================================== *)
+(* 10d. ANY                                                                  *)
+(* ====================================================================== *)
+
+Lemma interp_any e n a : interp TAny e n = Some a -> e = None /\ a = AAny (node_raw n).
+Proof. cbn [interp]. destruct e; [discriminate|]. intros H. inversion H. split; reflexivity. Qed.
+
+Fixpoint u0_free (n: node) : bool :=
+  match n with
+  | Prim c num _ _ => negb (tag_pair_eqb (c, num) (Univ, 0))
+  | Cons c num _ kids _ => negb (tag_pair_eqb (c, num) (Univ, 0)) && forallb u0_free kids
+  end.
+
+Lemma safe_u0 L : memk (KN, (Univ, 0)) L = true -> forall n, safe L n = true -> u0_free n = true.
+Proof.
+  intros HL. induction n as [c num contents raw|c num indef kids raw IH] using node_ind'; intros Hs.
+  - cbn [safe u0_free] in *. apply andb3 in Hs. destruct Hs as (_ & _ & Hu). unfold u0_ok in Hu. rewrite HL in Hu. exact Hu.
+  - cbn [safe u0_free] in *. apply andb3 in Hs. destruct Hs as (_ & Hu & Hk). unfold u0_ok in Hu. rewrite HL in Hu.
+    cbn [andb] in Hu. rewrite Hu. cbn [andb]. apply forallb_forall. intros k Hk0. rewrite Forall_forall in IH.
+    rewrite forallb_forall in Hk. apply (IH k Hk0 (Hk k Hk0)).
+Qed.
+
+Lemma u0_wire n : u0_free n = true -> tag_eqb (node_wire n) (utag false 0) = false.
+Proof.
+  intros H. assert (Hk: tag_pair_eqb (key (node_wire n)) (Univ, 0) = false).
+  { destruct n; cbn [u0_free] in H; [|apply andb_true_iff in H; destruct H as [H _]]; apply negb_true_iff in H; exact H. }
+  unfold tag_pair_eqb, key in Hk. cbn [fst snd] in Hk. unfold tag_eqb, utag. cbn [tcls tnum].
+  destruct (tcls (node_wire n)); cbn [cls_eqb class_no andb N.eqb] in *; try reflexivity. exact Hk.
+Qed.
+
+(* the dispatch of an untagged ANY: any tag but UNIVERSAL 0 *)
+Lemma dispatch_any rec f t len sfun : tag_eqb t (utag false 0) = false ->
+  dispatch BER rec f (STy TAny) [t] len sfun =
+  match len with
+  | Some l => run_def (dec_any f (Some TAny) [t] l sfun) l
+  | None => dec_any_indef rec f (Some TAny) [t] sfun
+  end.
+Proof.
+  intros Ht. unfold dispatch, tm_contains, tm_find, tm_mem, eoo_tagset.
+  change (tagset_of' TAny) with (@nil tag). change (tagmap_of TAny) with (mkTmap [([], TAny)] [[utag false 0]] (Some TAny) false).
+  cbn [tm_present tm_default tm_skip tm_postponed assoc tagset_eqb list_eqb existsb orb]. unfold tagset_eqb. cbn [list_eqb].
+  rewrite Ht. cbn [andb orb negb]. destruct len; reflexivity.
+Qed.
+
+Definition any_result (sfun: bool) (raw: bytes) : dval := if sfun then DRaw raw else DV TAny (VAny raw).
+
+Section AnyLoop.
+  Variable rec : spec -> tagset -> option (option N) -> bool -> bool -> proc dval.
+  Hypothesis rec_eoo : forall sp acc sfun s tl, avail s = 0 :: 0 :: tl ->
+    resume (rec sp acc None true sfun) s = inr (Ok DEoo, adv s 2).
+
+  Lemma any_indef_loop_run lf sp ts (sfun tagged: bool) : forall parts,
+    Forall (fun p => consumes (rec (STy TAny) [] None true true) p (DRaw p)) parts ->
+    forall n acc s tl, (length parts < n)%nat -> avail s = concat parts ++ [0; 0] ++ tl ->
+    exists s', resume (any_indef_loop rec lf sp ts sfun tagged n acc) s
+               = resume (let whole := acc ++ concat parts ++ (if tagged then [] else [0; 0]) in
+                         if sfun then Ret (DRaw whole) else create sp TAny ts (VAny whole)) s'
+      /\ pos s' = (pos s + (length (concat parts) + 2))%nat /\ arrived s' = arrived s /\ closed s' = closed s /\ mark s' = mark s' .
+  Proof.
+    intros parts HF. induction HF as [|p parts Hp HF IH]; intros n acc s tl Hn Hav.
+    - destruct n as [|n']; [cbn [length] in Hn; lia|].
+      cbn [any_indef_loop]. unfold fragment. cbn [concat app] in Hav.
+      rewrite (resume_pbind_done _ _ _ _ _ (rec_eoo _ _ _ s tl Hav)). cbv zeta. cbn [concat app].
+      exists (adv s 2). split; [reflexivity|]. repeat split.
+    - destruct n as [|n']; [cbn [length] in Hn; lia|].
+      cbn [any_indef_loop]. unfold fragment. cbn [concat] in Hav. rewrite <- app_assoc in Hav.
+      destruct (Hp s _ Hav) as (s1 & Hrun & Hpos & Harr & Hcl).
+      rewrite (resume_pbind_done _ _ _ _ _ Hrun).
+      pose proof (consumes_avail p s _ s1 Hav Hpos Harr) as Hav1.
+      cbn [length] in Hn.
+      destruct (IH n' (acc ++ p) s1 tl ltac:(lia) Hav1) as (s2 & Hrun2 & Hpos2 & Harr2 & Hcl2 & _).
+      exists s2. rewrite Hrun2. cbv zeta. rewrite <- !app_assoc. cbn [concat]. rewrite <- !app_assoc.
+      split; [reflexivity|]. rewrite app_length. split; [lia|]. split; [congruence|]. split; [congruence|reflexivity].
+  Qed.
+End AnyLoop.
+
+Lemma create_any T0 ts b : base_of T0 = TAny -> create (Some T0) TAny ts (VAny b) = Ret (DV T0 (VAny b)).
+Proof. intros H. unfold create. rewrite H. reflexivity. Qed.
+
+(* an untagged ANY: the whole TLV, in any form, as a value or as a fragment of an enclosing ANY *)
+Theorem any_item : forall n f allow sfun,
+  nok f n -> u0_free n = true -> (allow = true -> eoc_start (node_raw n) = false) ->
+  consumes (dec_call BER (S f) (STy TAny) [] None allow sfun) (node_raw n) (any_result sfun (node_raw n)).
+Proof.
+  induction n as [c num contents raw|c num indef kids raw IH] using node_ind'; intros f allow sfun Hok Hu0 Heoc.
+  - (* primitive: definite *)
+    destruct Hok as (Hsh & Ho & Hmax & Hf). pose proof (u0_wire _ Hu0) as Ht.
+    destruct (shape_split _ Hsh) as (ib & lb & Hi & Hl & Eraw). cbn [node_raw node_wire node_len node_body] in *.
+    intros s tl Hav. rewrite Eraw in Hav. rewrite <- !app_assoc in Hav.
+    rewrite (call_header f (STy TAny) [] allow sfun ib lb _ _ (contents ++ tl) s Hi Hl Hav).
+    2:{ rewrite Eraw, !app_length in Hf. lia. }
+    2:{ intros Ha. apply (eoc_start_prefix _ contents); [apply (hdr_len2 _ _ _ _ Hi Hl)|rewrite <- Eraw; apply Heoc; exact Ha]. }
+    rewrite (dispatch_any _ _ _ _ _ Ht). unfold run_def, dec_any.
+    change (tagset_of' TAny) with (@nil tag). unfold tagset_eqb. cbn [list_eqb negb].
+    set (hl := (length ib + length lb)%nat). set (s1 := adv (setmark s (pos s)) hl).
+    unfold getmark, tell. cbn [pbind]. cbn [resume].
+    replace (pos s1 - mark s1)%nat with hl by (subst s1; cbn [pos mark adv setpos setmark]; lia).
+    assert (Es2: setpos s1 (pos s1 - hl) = setmark s (pos s)).
+    { subst s1. apply setpos_back. }
+    rewrite Es2.
+    assert (Hlen: N.of_nat (length contents) + N.of_nat hl = N.of_nat (length raw)).
+    { rewrite Eraw, !app_length. subst hl. lia. }
+    rewrite Hlen. unfold read_len.
+    destruct (N.ltb_spec index_max (N.of_nat (length raw))) as [Hc|_]; [lia|].
+    replace (N.to_nat (N.min (N.of_nat (length raw)) (N.of_nat (S f)))) with (length raw) by lia.
+    unfold readN. cbn [pbind resume].
+    rewrite (attempt_enough (setmark s (pos s)) (length raw) raw tl).
+    2:{ rewrite avail_setmark, Hav, Eraw, <- !app_assoc. reflexivity. }
+    2:{ reflexivity. }
+    assert (Hfin: forall k : dval -> proc dval, (if sfun then Ret (DRaw raw) else create (Some TAny) TAny [mkTag c false num] (VAny raw))
+                  = Ret (any_result sfun raw)).
+    { intros _. destruct sfun; reflexivity. }
+    rewrite (Hfin (fun x => Ret x)). cbn [pbind resume].
+    replace (pos (adv (setmark s (pos s)) (length raw)) - pos s1)%nat with (length contents)
+      by (subst s1 hl; cbn [pos adv setpos setmark]; rewrite Eraw, !app_length; lia).
+    rewrite N.eqb_refl. cbn [resume].
+    eexists. split; [reflexivity|]. cbn [pos arrived closed adv setpos setmark]. repeat split.
+  - (* constructed *)
+    pose proof Hok as (Hsh & Ho & Hmax & Hf). pose proof (u0_wire _ Hu0) as Ht.
+    destruct (nok_kids _ _ _ _ _ _ Hok) as (f' & -> & Hcnt & Hkids).
+    destruct (shape_split _ Hsh) as (ib & lb & Hi & Hl & Eraw). cbn [node_raw node_wire node_len node_body] in *.
+    cbn [u0_free] in Hu0. apply andb_true_iff in Hu0. destruct Hu0 as [_ Hu0k].
+    intros s tl Hav. rewrite Eraw in Hav. rewrite <- !app_assoc in Hav.
+    rewrite (call_header (S (S f')) (STy TAny) [] allow sfun ib lb _ _ _ s Hi Hl Hav).
+    2:{ rewrite Eraw, !app_length in Hf. lia. }
+    2:{ intros Ha. apply (eoc_start_prefix _ (kids_raw kids ++ (if indef then [0; 0] else []))); [apply (hdr_len2 _ _ _ _ Hi Hl)|rewrite <- Eraw; apply Heoc; exact Ha]. }
+    rewrite (dispatch_any _ _ _ _ _ Ht).
+    set (hl := (length ib + length lb)%nat). set (s1 := adv (setmark s (pos s)) hl).
+    destruct indef.
+    + (* indefinite: the header again, then the members as raw fragments *)
+      unfold dec_any_indef. change (tagset_of' TAny) with (@nil tag). unfold tagset_eqb. cbn [list_eqb].
+      unfold getmark, tell. cbn [pbind]. cbn [resume].
+      replace (pos s1 - mark s1)%nat with hl by (subst s1; cbn [pos mark adv setpos setmark]; lia).
+      assert (Es2: setpos s1 (pos s1 - hl) = setmark s (pos s)) by (subst s1; apply setpos_back).
+      rewrite Es2. unfold readN. cbn [pbind resume].
+      rewrite (attempt_enough (setmark s (pos s)) hl (ib ++ lb) (kids_raw kids ++ [0; 0] ++ tl)).
+      2:{ rewrite avail_setmark, Hav, <- !app_assoc. reflexivity. }
+      2:{ subst hl. apply app_length. }
+      fold s1.
+      assert (Hparts: Forall (fun p => consumes (dec_call BER (S (S f')) (STy TAny) [] None true true) p (DRaw p)) (map node_raw kids)).
+      { apply Forall_forall. intros p Hp. apply in_map_iff in Hp. destruct Hp as (k & <- & Hk).
+        rewrite Forall_forall in IH, Hkids. destruct (Hkids k Hk) as (Hnk & Hke & _).
+        rewrite forallb_forall in Hu0k.
+        apply (IH k Hk (S f') true true (nok_mono _ _ _ Hnk (Nat.le_succ_diag_r f')) (Hu0k k Hk) (Hke eq_refl)). }
+      assert (Hav1: avail s1 = concat (map node_raw kids) ++ [0; 0] ++ tl).
+      { subst s1 hl. rewrite avail_adv, avail_setmark, Hav. rewrite app_assoc, <- app_length. rewrite skipn_app_exact. reflexivity. }
+      destruct (any_indef_loop_run (dec_call BER (S (S f'))) (dec_call_eoo (S f')) (S (S f')) (Some TAny) [mkTag c true num] sfun false
+                  (map node_raw kids) Hparts (S (S f')) (ib ++ lb) s1 tl ltac:(rewrite map_length; lia) Hav1)
+        as (s2 & Hrun & Hpos & Harr & Hcl & _).
+      rewrite Hrun. cbv zeta. fold (kids_raw kids).
+      replace ((ib ++ lb) ++ kids_raw kids ++ [0; 0]) with raw by (rewrite Eraw, <- !app_assoc; reflexivity).
+      assert (Hfin: (if sfun then Ret (DRaw raw) else create (Some TAny) TAny [mkTag c true num] (VAny raw)) = Ret (any_result sfun raw))
+        by (destruct sfun; reflexivity).
+      rewrite Hfin. cbn [resume]. exists s2. split; [reflexivity|].
+      fold (kids_raw kids) in Hpos. rewrite Hpos, Harr, Hcl. subst s1 hl. cbn [pos arrived closed adv setpos setmark].
+      rewrite Eraw, !app_length. cbn [length]. repeat split. lia.
+    + (* definite *)
+      rewrite app_nil_r in *. unfold run_def, dec_any.
+      change (tagset_of' TAny) with (@nil tag). unfold tagset_eqb. cbn [list_eqb negb].
+      unfold getmark, tell. cbn [pbind]. cbn [resume].
+      replace (pos s1 - mark s1)%nat with hl by (subst s1; cbn [pos mark adv setpos setmark]; lia).
+      assert (Es2: setpos s1 (pos s1 - hl) = setmark s (pos s)) by (subst s1; apply setpos_back).
+      rewrite Es2.
+      assert (Hlen: N.of_nat (length (kids_raw kids)) + N.of_nat hl = N.of_nat (length raw)).
+      { rewrite Eraw, !app_length. subst hl. lia. }
+      rewrite Hlen. unfold read_len.
+      destruct (N.ltb_spec index_max (N.of_nat (length raw))) as [Hc|_]; [lia|].
+      replace (N.to_nat (N.min (N.of_nat (length raw)) (N.of_nat (S (S (S f')))))) with (length raw) by lia.
+      unfold readN. cbn [pbind resume].
+      rewrite (attempt_enough (setmark s (pos s)) (length raw) raw tl).
+      2:{ rewrite avail_setmark, Hav, Eraw, <- !app_assoc. reflexivity. }
+      2:{ reflexivity. }
+      assert (Hfin: (if sfun then Ret (DRaw raw) else create (Some TAny) TAny [mkTag c true num] (VAny raw)) = Ret (any_result sfun raw))
+        by (destruct sfun; reflexivity).
+      rewrite Hfin. cbn [pbind resume].
+      replace (pos (adv (setmark s (pos s)) (length raw)) - pos s1)%nat with (length (kids_raw kids))
+        by (subst s1 hl; cbn [pos adv setpos setmark]; rewrite Eraw, !app_length; lia).
+      rewrite N.eqb_refl. cbn [resume].
+      eexists. split; [reflexivity|]. cbn [pos arrived closed adv setpos setmark]. repeat split.
 Qed.
 
 (* ====================================================================== *)
